@@ -7,7 +7,7 @@ MUT = [
  ("m02-done-keeps-ticker", "C18", "meter/meter.go", "\tp.ticker = nil\n", ""),
  ("m03-start-keeps-count", "C18", "meter/meter.go", "\tatomic.StoreInt64(&p.count, 0)\n", ""),
  ("m04-readfull-to-read", "C01", "git/batch_obj_iter.go", "if _, err := io.ReadFull(f, data); err != nil {", "if _, err := f.Read(data); err != nil {"),
- ("m05-no-replace-objects-dropped", "C13", "git/git.go", '\t\t"--no-replace-objects",\n', ""),
+ ("m05-no-replace-objects-dropped", "C13", "git/git.go", '\t\t"--no-replace-objects",\n\t\t"-c", "core.useReplaceRefs=false",\n', ""),
  ("m06-graft-file-not-disabled", "C13", "git/git.go", '\t\t"GIT_GRAFT_FILE="+os.DevNull,\n', ""),
  ("m07-depth-as-sum", "C03", "sizes/sizes.go", "\ts.MaxAncestorDepth.AdjustMaxIfNecessary(s2.MaxAncestorDepth)", "\ts.MaxAncestorDepth.Increment(s2.MaxAncestorDepth)"),
  ("m08-path-separator-not-counted", "C04", "sizes/sizes.go", "(counts.NewCount32(uint64(len(filename))) + 1).Plus(s2.MaxPathLength)", "(counts.NewCount32(uint64(len(filename))) + 0).Plus(s2.MaxPathLength)"),
